@@ -211,6 +211,11 @@ const ToolCfg tool_cfgs[] = {
 	{{"dadd", "-S", "-E", "+1d"}, "dadd+1d-E"},
 	{{"dconv", "-S", "-i", "%d/%m/%Y", "-f", "%F"}, "none"},
 	{{"dadd", "-S", "+1mo"}, "none"},
+	/* rounding to a day of the month or to a month, weekday and week fields printed: what is left of a
+	 * near miss with a zero month or day must still print without reading outside the calendar tables */
+	{{"dround", "-S", "-f", "%F %a %j %G-W%V-%u", "--", "-1"}, "none"},
+	{{"dround", "-S", "-f", "%A %B %d %Y %U %W", "Feb", "31"}, "none"},
+	{{"dadd", "-S", "-f", "%F %a %j %G-W%V-%u %c", "-1mo"}, "none"},
 };
 
 std::string safe_lit(Rng &r, size_t n, bool allow_nul)
@@ -247,7 +252,7 @@ std::string near_miss(Rng &r)
 {
 	static const char *nm[] = {"2012-01-0", "2012-13-45", "24:00:00", "2012-02-30", "12:34", "2012-1-1", "20120101", "2012-01-01-2012-01-02",
 				   "1-2-3", "99:99:99", "2012-01-011", "0000-00-00", "x2012-01-01y", "2012-01-01T25:00:00", "--", "::", "-", "2012-",
-				   "2012-01-0b", "2012-02-00b", "2012-01-0B", "2012-00-10", "2012-01-0b x", "2012-03-00"};
+				   "2012-01-0b", "2012-02-00b", "2012-01-0B", "2012-00-10", "2012-01-0b x", "2012-03-00", "2004-00-02", "2012-00-31", "1999-00-00"};
 	return nm[r.below(sizeof(nm) / sizeof(*nm))];
 }
 
